@@ -42,6 +42,31 @@ def lanesOf (s : String) : Option (List (List (BitVec 8))) :=
 def strOfLanes (ls : List (List (BitVec 8))) : String :=
   if ls.isEmpty then "-" else ";".intercalate (ls.map fun l => csvOfInts (intsOfBv l))
 
+/-- ASCII case mapping; the marker [0xff, 0xfe] for a string that is not ASCII -/
+def asciiMap (f : BitVec 8 → BitVec 8) (s : List (BitVec 8)) : List (BitVec 8) :=
+  if s.all (fun c => decide (c.toNat < 128)) then s.map f else [0xff#8, 0xfe#8]
+def toLowerImpl : List (BitVec 8) → List (BitVec 8) :=
+  asciiMap fun c => if 65 ≤ c.toNat ∧ c.toNat ≤ 90 then c + 32#8 else c
+def toUpperImpl : List (BitVec 8) → List (BitVec 8) :=
+  asciiMap fun c => if 97 ≤ c.toNat ∧ c.toNat ≤ 122 then c - 32#8 else c
+/-- `strings.LastIndex(s, sep)` for a one-byte `sep` -/
+def lastIndexImpl (s sep : List (BitVec 8)) : BitVec 64 :=
+  match sep with
+  | [b] =>
+    match (List.range s.length).reverse.find? (fun i => s.getD i 0 == b) with
+    | some i => BitVec.ofNat 64 i
+    | none => BitVec.ofInt 64 (-1)
+  | _ => BitVec.ofInt 64 (-1)
+/-- the two tables of the package variable `charset`: what the generated `newEncoding` returns on the source's alphabet -/
+def bechTables : Option (List (BitVec 8) × List (BitVec 8)) :=
+  Gen.Bech32.chars.newEncoding (Gen.Bech32.charset.map (BitVec.ofNat 8))
+def bechErr (e : String × Option (BitVec 64)) : String :=
+  let kind := match e.1 with
+    | "ErrInvalidLength" => "length" | "ErrMissingSeparator" => "missing-sep" | "ErrInvalidSeparator" => "sep"
+    | "ErrInvalidCharacter" => "char" | "ErrMixedCase" => "case" | "ErrInvalidChecksum" => "checksum"
+    | "base32.ErrInvalidLength" => "b32length" | "base32.ErrNonZeroPadding" => "padding" | other => other
+  s!"err {kind} " ++ (match e.2 with | some o => toString o.toInt | none => "-")
+
 def ops : List (String × Handler) := [
   ("gen.b1t6.enc", fun
     | [n, h] => match n.toNat?, bytesOfHex h with
@@ -192,6 +217,29 @@ def ops : List (String × Handler) := [
         | none => "panic"
         | some b => s!"ok {b}"
       | none => badOp
+    | _ => badOp),
+  -- the public entry points through the generated bech32.go (namespace api); the library functions it takes as
+  -- parameters are given their ASCII meaning, with a trap: called on a non-ASCII string they return a marker that cannot
+  -- be a correct answer (the generated code is supposed to reach them only after it has checked the input to be ASCII)
+  ("gen.bech32.dec", fun
+    | [h] => match bytesOfHex h with
+      | some s => match bechTables with
+        | none => "panic-tables"
+        | some (_, dec) => match Gen.Bech32.api.Decode dec lastIndexImpl toLowerImpl toUpperImpl (bvOfBytes s) with
+          | none => "panic"
+          | some (hrp, d, none) => s!"ok {hexOfBytes (bytesOfBv hrp)} {hexOfBytes (bytesOfBv d)}"
+          | some (_, _, some e) => bechErr e
+      | none => badOp
+    | _ => badOp),
+  ("gen.bech32.enc", fun
+    | [h, d] => match bytesOfHex h, bytesOfHex d with
+      | some hrp, some src => match bechTables with
+        | none => "panic-tables"
+        | some (enc, _) => match Gen.Bech32.api.Encode enc toLowerImpl toUpperImpl (bvOfBytes hrp) (bvOfBytes src) with
+          | none => "panic"
+          | some (r, none) => s!"ok {hexOfBytes (bytesOfBv r)}"
+          | some (_, some e) => bechErr e
+      | _, _ => badOp
     | _ => badOp),
   -- a fresh sponge: Reset, Absorb(src, a), Squeeze(len(dst) = k lanes, s); all through the generated code
   ("gen.curl.sponge", fun
